@@ -1,6 +1,7 @@
 (* C12 - Expired messages are never executed; live ones are never dropped (in-memory broker).
    Statements only; every proof is `exact <lemma>`. *)
 From Repid Require Import Base Sched MemBroker MemProofs MemProofs2 MemProofs3 Handle Ladder LadderProofs.
+From Repid Require Import GenSched GenSchedProofs.
 
 (* an expired message is never handed to a normal consumer (hence never to an actor) *)
 Theorem C12_mem_no_expired_delivery : forall s c q topics now upd s' m,
@@ -41,6 +42,10 @@ Proof. exact reschedule_restarts_clock. Qed.
 Theorem C12_retry_keeps_clock : forall p now back, p_ts (prepare_retry p now back) = p_ts p /\ p_ttl (prepare_retry p now back) = p_ttl p.
 Proof. exact retry_keeps_clock. Qed.
 
+(* the source is the model: generated from /repo's current source on every run (harness/translate.py), proved equal *)
+Theorem C12_source_is_model_is_overdue : forall p now, gen_is_overdue p now = overdue (p_ts p) (p_ttl p) now.
+Proof. exact gen_is_overdue_eq. Qed.
+
 Print Assumptions C12_mem_no_expired_delivery.
 Print Assumptions C12_mem_expired_to_dead.
 Print Assumptions C12_mem_dead_retrievable.
@@ -48,3 +53,4 @@ Print Assumptions C12_mem_live_not_dropped.
 Print Assumptions C12_overdue_boundary.
 Print Assumptions C12_reschedule_restarts_clock.
 Print Assumptions C12_retry_keeps_clock.
+Print Assumptions C12_source_is_model_is_overdue.
